@@ -131,6 +131,9 @@ func (h *HelloElemVersionBitmap) Header() *HelloElemHeader {
 func (h *HelloElemVersionBitmap) Len() (n uint16) {
 	n = h.HelloElemHeader.Len()
 	n += uint16(len(h.Bitmaps) * 4)
+	// Hello elements are padded with zeros to a multiple of 8 bytes; the
+	// element header's Length field excludes the padding.
+	n = (n + 7) / 8 * 8
 	return
 }
 
